@@ -229,6 +229,13 @@ SELECTORS = {
     'g3': ('$3', lambda env: env.get('3')),
     'named': ('$x', lambda env: env.get('x')),
     'namedv': ('$x?.value', lambda env: (env.get('x') or {}).get('value')),
+    # selectors that return a lazily evaluated sequence which still refers
+    # to the match records when it is consumed
+    'lazy-g2': ('[0, 1].select($2?.value)', lambda env: [
+        (env.get('2') or {}).get('value')] * 2),
+    'lazy-named': ('[0].select([$x?.start, $2?.value])', lambda env: [
+        [(env.get('x') or {}).get('start'),
+         (env.get('2') or {}).get('value')]]),
     'all': ('[$1, $2, $3, $x, $y]', lambda env: [
         env.get('1'), env.get('2'), env.get('3'), env.get('x'),
         env.get('y')]),
@@ -264,7 +271,12 @@ def b_search_all(c):
     if sel is None:
         return ('%s.searchAll($s)' % _rx_expr(c), c, [m.group() for m in ms])
     text, fn = SELECTORS[sel]
-    return ('%s.searchAll($s, %s)' % (_rx_expr(c), text), c,
+    tail = ''
+    if sel.startswith('lazy'):
+        # materialise the outer sequence before any inner one is consumed
+        tail = '.toList().select($.toList())' if c.get('form', 0) == 0 \
+            else '.toList().reverse().select($.toList()).reverse()'
+    return ('%s.searchAll($s, %s)%s' % (_rx_expr(c), text, tail), c,
             [fn(M.match_env(rx, m)) for m in ms])
 
 
@@ -612,7 +624,8 @@ def str_cases(draw):
         if fn == 'regex-replace':
             c['repl'] = draw(st.sampled_from(
                 ['', 'x', '<\\g<0>>', 'é', '-']))
-        if fn in ('regex-split', 'regex-replace', 'replaceBy'):
+        if fn in ('regex-split', 'regex-replace', 'replaceBy', 'searchAll',
+                  'search'):
             c['form'] = draw(st.integers(0, 1))
         if fn == 'split-interleave':
             # the law needs non-empty matches and no capture groups
